@@ -164,6 +164,18 @@ def check_case(case):
     labels = ["acids-only" if acids and not bases else "bases-only" if bases and not acids else
               "none-titratable" if not sites else "mixed"]
     if case.get("cfgspec"):
+        # the model pKa of a group whose (residue name, atom name) has a custom entry is the value of that entry - read
+        # from the specification of the parameter file, not from the program's tables
+        custom = {}
+        for line in case["cfgspec"].get("extra") or []:
+            w = line.split()
+            if len(w) == 3 and w[0] == "custom_model_pkas":
+                custom[w[1]] = float(w[2])
+        for g in rec["confs"]["AVR"]["groups"]:
+            key = "%s-%s" % (g["resname"].strip(), g["aname"].strip())
+            if key in custom and g["titratable"] and abs(g["model_pka"] - custom[key]) > 1e-9:
+                v.append({"clause": "custom-model-pka", "detail": "%s: model pKa %r, the parameter file says "
+                          "custom_model_pkas %s %r" % (g["label"], g["model_pka"], key, custom[key])})
         # a custom model pKa took effect when a group's model pKa is not the tabulated one of its type
         table = mol.version.parameters.model_pkas
         if any(g.titratable and abs(g.model_pka - table.get(g.residue_type, g.model_pka)) > 1e-9
